@@ -23,8 +23,16 @@ Definition model_call (c : scall) : option (list N) :=
   match c with
   | SLength s => Some (dec_of_Z (str_length s))
   | SIndex s sub => Some (show_oz (str_index s sub))
-  | SInsert s q ins i => Some (show_str (str_insert s ins (i64_of_literal i)) q)
-  | SSlice s q i j => option_map (fun r => show_str r q) (str_slice s (i64_of_literal i) (i64_of_literal j))
+  | SInsert s q ins i =>
+      match i64_of_literal i with
+      | Some i' => Some (show_str (str_insert s ins i') q)
+      | None => None
+      end
+  | SSlice s q i j =>
+      match i64_of_literal i, i64_of_literal j with
+      | Some i', Some j' => option_map (fun r => show_str r q) (str_slice s i' j')
+      | _, _ => None
+      end
   | SUpper s q => Some (show_str (str_upper s) q)
   | SLower s q => Some (show_str (str_lower s) q)
   end.
@@ -33,8 +41,17 @@ Definition spec_call (c : scall) : option (list N) :=
   match c with
   | SLength s => Some (dec_of_Z (sp_length s))
   | SIndex s sub => Some (show_oz (sp_index s sub))
-  | SInsert s q ins i => Some (show_str (sp_insert s ins i) q)
-  | SSlice s q i j => Some (show_str (sp_slice s i j) q)
+  (* indices that are not i64 values are outside the statement: rejected *)
+  | SInsert s q ins i =>
+      match i64_of_literal i with
+      | Some _ => Some (show_str (sp_insert s ins i) q)
+      | None => None
+      end
+  | SSlice s q i j =>
+      match i64_of_literal i, i64_of_literal j with
+      | Some _, Some _ => Some (show_str (sp_slice s i j) q)
+      | _, _ => None
+      end
   | SUpper s q => Some (show_str (sp_upper s) q)
   | SLower s q => Some (show_str (sp_lower s) q)
   end.
@@ -62,7 +79,11 @@ Definition clause_quotes (c : case) : bool :=
 (* known class K1 (F25): slice whose computed start lies after its computed end is an error *)
 Definition known_K1 (c : case) : bool :=
   match c_call c with
-  | SSlice s _ i j => negb (slice_start (i64_of_literal i) (length s) <=? slice_end (i64_of_literal j) (length s))%nat
+  | SSlice s _ i j =>
+      match i64_of_literal i, i64_of_literal j with
+      | Some i', Some j' => negb (slice_start i' (Z.of_nat (length s)) <=? slice_end j' (Z.of_nat (length s)))%Z
+      | _, _ => false
+      end
   | _ => false
   end.
 
